@@ -52,6 +52,21 @@ type Gen struct {
 	Feat     map[string]bool
 	// Suffix makes global function names unique across programs in one process.
 	Suffix string
+	// GlobalVars are integer-valued special variables visible everywhere (C08).
+	GlobalVars []string
+	// MacroName, when set, is a one-argument macro (m x) => (+ x 1) that int expressions may use (C08).
+	MacroName string
+	// FunPrefix is the prefix of generated function names (default "f").
+	FunPrefix string
+	// AllFuns lets a function body call every function of the program, also later ones (C08); calls stay acyclic
+	// because function i only calls functions with a larger index, or itself through the counted recursion.
+	AllFuns []FunSig
+}
+
+// FunSig announces a function that will be defined.
+type FunSig struct {
+	Name  string
+	Arity int
 }
 
 type fdef struct {
@@ -174,6 +189,7 @@ func (g *Gen) single(e r.Val) r.Val {
 
 func (g *Gen) leafInt(env []binding) r.Val {
 	vs := varsOf(env, TInt)
+	vs = append(vs, g.GlobalVars...)
 	if len(vs) > 0 && g.pick("leafvar", 3) > 0 {
 		return sym(vs[g.pick("leafsel", len(vs))])
 	}
@@ -184,7 +200,7 @@ func (g *Gen) intExpr(env []binding, d int) r.Val {
 	if d >= g.O.MaxDepth {
 		return g.leafInt(env)
 	}
-	switch g.pick("intk", 22) {
+	switch g.pick("intk", 23) {
 	case 0, 1:
 		return g.leafInt(env)
 	case 2:
@@ -264,7 +280,7 @@ func (g *Gen) intExpr(env []binding, d int) r.Val {
 		forms = append(forms, r.L(sym([]string{"t", "otherwise"}[g.pick("caset", 2)]), g.Expr(TInt, env, d+1)))
 		return r.L(forms...)
 	case 17:
-		vs := assignable(env)
+		vs := append(assignable(env), g.GlobalVars...)
 		if len(vs) > 0 {
 			g.kind("setq")
 			g.Feat["setq"] = true
@@ -286,6 +302,12 @@ func (g *Gen) intExpr(env []binding, d int) r.Val {
 	case 20:
 		// a counter closure called twice: state must persist in the binding it was created in
 		return g.counter(env, d)
+	case 21:
+		if g.MacroName != "" {
+			g.kind("macro-call")
+			return r.L(sym(g.MacroName), g.Expr(TInt, env, d+1))
+		}
+		fallthrough
 	default:
 		g.kind("call")
 		return r.L(sym("1+"), g.Expr(TInt, env, d+1))
@@ -683,4 +705,44 @@ func (g *Gen) Program() []r.Val {
 	}
 	forms = append(forms, g.Expr([]string{TInt, TList, TAny, TInt}[g.pick("maintype", 4)], nil, 0))
 	return forms
+}
+
+// DefunIndexed generates the definition of function sigs[i]. Its body may call the functions with a larger
+// index only (so the call graph is acyclic whatever the definition order) and, when recursive, itself through
+// the bounded counter.
+func (g *Gen) DefunIndexed(i int, sigs []FunSig) r.Val {
+	g.funs = nil
+	for _, s := range sigs[i+1:] {
+		g.funs = append(g.funs, fdef{s.Name, s.Arity})
+	}
+	me := sigs[i]
+	params := []r.Val{}
+	env := []binding{}
+	for k := 0; k < me.Arity; k++ {
+		params = append(params, sym(pool[k]))
+		env = append(env, binding{pool[k], TInt})
+	}
+	g.kind("defun")
+	var body r.Val
+	if g.pick("recursive", 4) == 0 {
+		g.kind("recursion")
+		env[0].typ = tIter
+		call := []r.Val{sym(me.Name), r.L(sym("-"), sym("a"), int64(1))}
+		for k := 1; k < me.Arity; k++ {
+			call = append(call, g.Expr(TInt, env, 4))
+		}
+		body = r.L(sym("if"), r.L(sym("or"), r.L(sym("<"), sym("a"), int64(1)), r.L(sym("<"), int64(3), sym("a"))), g.Expr(TInt, env, 4),
+			r.L(sym("+"), g.Expr(TInt, env, 4), r.L(call...)))
+	} else {
+		body = g.Expr(TInt, env, 3)
+	}
+	return r.L(sym("defun"), sym(me.Name), r.L(params...), body)
+}
+
+// SetCallable makes the given functions callable from expressions generated next (the main form).
+func (g *Gen) SetCallable(sigs []FunSig) {
+	g.funs = nil
+	for _, s := range sigs {
+		g.funs = append(g.funs, fdef{s.Name, s.Arity})
+	}
 }
